@@ -27,7 +27,7 @@ Fixpoint digits_fuel (b : N) (fuel : nat) (n : N) (acc : list N) : list N :=
   | O => acc
   | S f => if n =? 0 then acc else digits_fuel b f (n / b) (n mod b :: acc)
   end.
-Definition digits (b n : N) : list N := digits_fuel b (N.size_nat n) n [].
+Definition digits (b n : N) : list N := digits_fuel b (N.to_nat (N.size n)) n [].
 
 Fixpoint index_of (c : N) (l : list N) (i : N) : option N :=
   match l with
